@@ -8,6 +8,8 @@ pointer shapes with default:update at both levels, plus the structural pointer m
 import Gv.Model.Eval
 import Gv.Model.Gen
 import Gv.Proofs.EvalLemmas
+import Gv.Proofs.UpdateSound
+import Gv.Proofs.PlanCheckUSound
 import Gv.Props.C02
 import Gv.Props.C03
 import Gv.Props.C02
@@ -99,5 +101,167 @@ open Gv.Spec in
 theorem C11_img_value_to_pointer {env : TEnv} {s t te : Ty} {v w : Val} (hs : ∀ e, under env s ≠ .ptr e)
     (ht : under env t = .ptr te) (h : Img env s t v w) : ∃ y, w = .ptr .none y ∧ Img env s te v y :=
   Gv.Props.C02.C02_img_value_to_ptr_nonnil hs ht h
+
+/-! ### The composite theorems: methods with a default constructor
+
+`PlanCheck.checkProgU` accepts conversion methods whose body starts from a default constructor (`withCtor` / `ctorUpdate`
+around the constructor call `Gen.targetVar` emits, the rest in the structural fragment with ignored fields / zero guards).
+For every program that passes, every such method, every well-typed source value and every fuel, `init` being what FUNC
+returned (`IsCtorOf`: `ctorVal` of the target type, behind a pointer — the first location the call allocates — when the
+target is a pointer): -/
+
+open Gv.Typing Gv.Spec Gv.Sound in
+/-- **plain `default FUNC`**: the result is the conversion of the source ONTO FUNC's result (`Spec.ImgOnto` with
+`old = init`: ignored fields keep FUNC's values, mapped fields hold the images), and a nil source pointer returns FUNC's
+result itself, unchanged (the same object, not a copy) -/
+theorem C11_composite_default (p : Program) (hchk : PlanCheck.checkProgU p = true)
+    (fuel m : Nat) (gm : GenMethod) (ctor : Conv) (tp : Bool) (rest : Conv)
+    (hm : p.methods[m]? = some gm) (hb : gm.body = some (.convert (.withCtor ctor tp rest)))
+    (v : Val) (hwt : WT p.conv.env v gm.source) (cs : List Val) (n : Nat) (v' : Val) (n' : Nat)
+    (hev : Eval.callMethod p fuel m v cs n = .ok (v', n')) :
+    ∃ init, IsCtorOf p.conv.env gm.target (erase init) ∧
+      (∀ te, under p.conv.env gm.target = .ptr te → ∃ tv, init = .ptr (.fresh n) tv) ∧
+      ImgOnto p.conv.env (CtorSig p) gm.source gm.target v (erase init) (erase v') ∧
+      (∀ se, under p.conv.env gm.source = .ptr se → v = .nil → v' = init) :=
+  default_method_onto p (checkProgU_sound p hchk) fuel m gm ctor tp rest hm hb v hwt cs n v' n' hev
+
+open Gv.Typing Gv.Spec Gv.Sound in
+/-- plain `default FUNC` on a struct → struct method, field by field (`Spec.FieldOutcome` with FUNC's field values as the
+previous values): an ignored field holds FUNC's value, a mapped field the conversion of its source field -/
+theorem C11_composite_default_fields (p : Program) (hchk : PlanCheck.checkProgU p = true)
+    (fuel m : Nat) (gm : GenMethod) (ctor : Conv) (tp : Bool) (plans : FieldPlans) (upd : Bool)
+    (hm : p.methods[m]? = some gm) (hb : gm.body = some (.convert (.withCtor ctor tp (.structc plans upd))))
+    (sfs tfs : Fields) (hs : under p.conv.env gm.source = .struct sfs) (ht : under p.conv.env gm.target = .struct tfs)
+    (fs : List (S × Val)) (hwt : WT p.conv.env (.struct fs) gm.source) (cs : List Val) (n : Nat) (v' : Val) (n' : Nat)
+    (hev : Eval.callMethod p fuel m (.struct fs) cs n = .ok (v', n')) :
+    ∃ ws, v' = .struct ws ∧
+      ∀ (i : Nat) (tf : FieldInfo) (tty : Ty), tfs.toList[i]? = some (tf, tty) →
+        ∃ f, plans.toList[i]? = some f ∧
+          FieldOutcome p.conv.env (CtorSig p) sfs.toList fs tf tty
+            (erase.eraseFields (ctorVal.ctorFields p.conv.env 63 tfs.toList)) (erase.eraseFields ws) f := by
+  obtain ⟨ws, hv', himg⟩ := default_struct_onto p (checkProgU_sound p hchk) fuel m gm ctor tp plans upd hm hb sfs tfs hs ht fs hwt
+    cs n v' n' hev
+  exact ⟨ws, hv', fun i tf tty hi => himg.outcome i tf tty hi⟩
+
+open Gv.Typing Gv.Spec Gv.Sound in
+/-- **`default FUNC` with default:update**: the result is FUNC's result with the source applied on top (`Spec.CtorImg … true`:
+nil source pointer ⇒ FUNC's result; `*S → *T` / `S → *T` ⇒ FUNC's pointer with its pointee updated from the source;
+`*S → T` ⇒ FUNC's value updated from the pointee); for a pointer target the pointer returned IS FUNC's pointer (unerased:
+the first location the call allocates), and a nil source pointer returns FUNC's result itself -/
+theorem C11_composite_default_update (p : Program) (hchk : PlanCheck.checkProgU p = true)
+    (fuel m : Nat) (gm : GenMethod) (ctor : Conv) (tp sp tz : Bool) (inner : Conv)
+    (hm : p.methods[m]? = some gm) (hb : gm.body = some (.convert (.ctorUpdate ctor tp sp tz inner)))
+    (v : Val) (hwt : WT p.conv.env v gm.source) (cs : List Val) (n : Nat) (v' : Val) (n' : Nat)
+    (hev : Eval.callMethod p fuel m v cs n = .ok (v', n')) :
+    ∃ init, IsCtorOf p.conv.env gm.target (erase init) ∧
+      CtorImg p.conv.env (CtorSig p) true gm.source gm.target v (erase init) (erase v') ∧
+      (tz = true → ∃ tv nv, init = .ptr (.fresh n) tv ∧ v' = .ptr (.fresh n) nv) ∧
+      (sp = true → v = .nil → v' = init) :=
+  default_update_method_onto p (checkProgU_sound p hchk) fuel m gm ctor tp sp tz inner hm hb v hwt cs n v' n' hev
+
+/-! what `Spec.CtorImg … true` says at each shape (by inversion) -/
+
+open Gv.Spec in
+theorem C11_update_nil {env : TEnv} {K : Ty → Ty → Bool → Prop} {s t se : Ty} {c w : Val} (hs : under env s = .ptr se)
+    (h : CtorImg env K true s t .nil c w) : w = c := by
+  cases h with
+  | updNil _ => rfl
+  | updTgtPtr h1 _ _ => exact absurd hs (h1 se)
+
+open Gv.Spec in
+theorem C11_update_ptr_ptr {env : TEnv} {K : Ty → Ty → Bool → Prop} {s t se te : Ty} {l : Loc} {x c w : Val}
+    (hs : under env s = .ptr se) (ht : under env t = .ptr te) (h : CtorImg env K true s t (.ptr l x) c w) :
+    ∃ o y, c = .ptr .none o ∧ w = .ptr .none y ∧ ImgOnto env K se te x o y := by
+  cases h with
+  | updPtrPtr h1 h2 hi => rw [hs] at h1; cases h1; rw [ht] at h2; cases h2; exact ⟨_, _, rfl, rfl, hi⟩
+  | updSrcPtr _ h2 _ => exact absurd ht (h2 te)
+  | updTgtPtr h1 _ _ => exact absurd hs (h1 se)
+
+open Gv.Spec in
+theorem C11_update_value_to_ptr {env : TEnv} {K : Ty → Ty → Bool → Prop} {s t te : Ty} {v c w : Val}
+    (hs : ∀ e, under env s ≠ .ptr e) (ht : under env t = .ptr te) (h : CtorImg env K true s t v c w) :
+    ∃ o y, c = .ptr .none o ∧ w = .ptr .none y ∧ ImgOnto env K s te v o y := by
+  cases h with
+  | updNil h1 => exact absurd h1 (hs _)
+  | updPtrPtr h1 _ _ => exact absurd h1 (hs _)
+  | updSrcPtr h1 _ _ => exact absurd h1 (hs _)
+  | updTgtPtr _ h2 hi => rw [ht] at h2; cases h2; exact ⟨_, _, rfl, rfl, hi⟩
+
+/-! non-vacuity: concrete programs with a constructor custom function (`NewD`, marked as constructor by `sem`) -/
+
+def dFields : Fields :=
+  .cons { name := "A".toList, exported := true, embedded := false, pkg := [] } (.basic .int)
+    (.cons { name := "K".toList, exported := true, embedded := false, pkg := [] } (.basic .int) .nil)
+
+def dPlans : FieldPlans :=
+  .cons (.mapped "A".toList ["A".toList] [false] false false .ident .none) (.cons (.skip "K".toList) .nil)
+
+def dCtorFn : FnDef :=
+  { name := "NewD".toList, pkgPath := [], source := none, target := .struct dFields, args := [], contexts := [],
+    returnError := false }
+
+def dCtorCall : Conv := .call (.custom 0) [] false { mode := .none, path := [] }
+
+def dConv : Gen.Converter := { env := [], common := {}, outputPkg := [], customs := [dCtorFn], extend := [], orc := {} }
+
+def dSem : CustomSem := { isCtor := fun fn => "New".toList.isPrefixOf fn }
+
+def dMethod : GenMethod :=
+  { name := "Convert".toList, source := .struct dFields, target := .struct dFields, args := [], contexts := [],
+    returnError := false, updateTarget := false, explicit := true, dirty := false, originPath := [], originName := [],
+    cfg := { common := {} }, body := some (.convert (.withCtor dCtorCall false (.structc dPlans false))) }
+
+def dProgram : Program := { conv := dConv, methods := [dMethod], sem := dSem }
+
+def dSrc : List (S × Val) := [("A".toList, .basic "5".toList), ("K".toList, .basic "1".toList)]
+
+example : PlanCheck.checkProgU dProgram = true := by decide
+
+/-- `A` is mapped (5), the ignored `K` keeps the constructor's 7 -/
+example : Eval.callMethod dProgram 10 0 (.struct dSrc) [] 0 =
+    .ok (.struct [("A".toList, .basic "5".toList), ("K".toList, .basic "7".toList)], 0) := by
+  unfold Eval.callMethod
+  simp [dProgram, dMethod, dPlans, dSrc, dFields, dCtorCall, dConv, dCtorFn, dSem, evalConv, evalFields, walk, fieldOf, setField,
+    normStruct, ctorVal, ctorVal.ctorFields, isPtr, under, Fields.toList, Val.isAbsent, pure, StateT.pure, bind, StateT.bind,
+    List.lookup, List.filterMapM, List.filterMapM.loop, List.isPrefixOf]
+
+open Gv.Typing in
+example : WT dProgram.conv.env (.struct dSrc) (.struct dFields) :=
+  WT_struct_of_basics (tfs := dFields) rfl
+    (by intro q hq; simp [dSrc] at hq; rcases hq with rfl | rfl <;> exact ⟨_, rfl⟩)
+    (by intro q hq; simp [dFields, Fields.toList] at hq; rcases hq with rfl | rfl <;> exact ⟨_, rfl⟩)
+
+/-! `*D → *D` with default:update: the constructor returns a `D`, wrapped into a pointer (`toPointer`) -/
+
+def dMethodU : GenMethod :=
+  { dMethod with source := .ptr (.struct dFields), target := .ptr (.struct dFields),
+                 body := some (.convert (.ctorUpdate dCtorCall true true true (.structc dPlans true))) }
+
+def dProgramU : Program := { dProgram with methods := [dMethodU] }
+
+example : PlanCheck.checkProgU dProgramU = true := by decide
+
+/-- non-nil source: the constructor's pointer (`fresh 0`), `A` overwritten by the source, `K` keeping the constructor's 7 -/
+example : Eval.callMethod dProgramU 10 0 (.ptr (.src 1) (.struct dSrc)) [] 0 =
+    .ok (.ptr (.fresh 0) (.struct [("A".toList, .basic "5".toList), ("K".toList, .basic "7".toList)]), 1) := by
+  unfold Eval.callMethod
+  simp [dProgramU, dProgram, dMethodU, dMethod, dPlans, dSrc, dFields, dCtorCall, dConv, dCtorFn, dSem, evalConv, evalFields, walk,
+    fieldOf, setField, normStruct, ctorVal, ctorVal.ctorFields, isPtr, under, Fields.toList, Val.isAbsent, pure, StateT.pure, bind,
+    StateT.bind, freshLoc, List.lookup, List.filterMapM, List.filterMapM.loop, List.isPrefixOf]
+
+/-- nil source: the constructor's result, untouched -/
+example : Eval.callMethod dProgramU 10 0 .nil [] 0 =
+    .ok (.ptr (.fresh 0) (.struct [("A".toList, .basic "7".toList), ("K".toList, .basic "7".toList)]), 1) := by
+  unfold Eval.callMethod
+  simp [dProgramU, dProgram, dMethodU, dMethod, dFields, dCtorCall, dConv, dCtorFn, dSem, evalConv,
+    ctorVal, ctorVal.ctorFields, isPtr, under, Fields.toList, pure, StateT.pure, bind,
+    StateT.bind, freshLoc, List.filterMapM, List.filterMapM.loop, List.isPrefixOf]
+
+open Gv.Typing in
+example : WT dProgramU.conv.env (.ptr (.src 1) (.struct dSrc)) (.ptr (.struct dFields)) :=
+  .ptr (e := .struct dFields) rfl
+    (WT_struct_of_basics (tfs := dFields) rfl
+      (by intro q hq; simp [dSrc] at hq; rcases hq with rfl | rfl <;> exact ⟨_, rfl⟩)
+      (by intro q hq; simp [dFields, Fields.toList] at hq; rcases hq with rfl | rfl <;> exact ⟨_, rfl⟩))
 
 end Gv.Props.C11
